@@ -248,7 +248,26 @@ theorem followOk_cons_ref (b : Bool) (ds : Bytes) (segs : List Seg) (h : followO
     | cons c r =>
       rw [hR] at h1
       simp only [Bool.and_eq_true, Bool.not_eq_true', bne_iff_ne, ne_eq] at h1
-      exact h1
+      exact h1.1
+
+/-- the first byte, if any, is ASCII -/
+def headAscii (R : Bytes) : Prop :=
+  match R with
+  | [] => True
+  | c :: _ => c < 0x80
+
+/-- the part of `followOk` the regex side needs: what follows a bare reference is absent or ASCII -/
+theorem followOk_cons_ref_ascii (ds : Bytes) (segs : List Seg) (h : followOk (.ref false ds :: segs) = true) :
+    headAscii (flatSegs segs) := by
+  unfold headAscii
+  simp only [followOk, Bool.and_eq_true] at h
+  have h1 := h.1
+  cases hR : flatSegs segs with
+  | nil => trivial
+  | cons c r =>
+    rw [hR] at h1
+    simp only [Bool.and_eq_true, decide_eq_true_eq] at h1
+    exact h1.2
 
 theorem findRefs_flat : ∀ (segs : List Seg) (fuel : Nat), (∀ s ∈ segs, segOk s = true) → followOk segs = true →
     (flatSegs segs).length ≤ fuel → findRefs fuel (flatSegs segs) = refsOf segs := by
@@ -696,6 +715,109 @@ theorem expandSpec_flat (caps : List Bytes) : ∀ (segs : List Seg) (fuel : Nat)
         simp only [expandSpec, beq_self_eq_true, if_true, hc2, Bool.false_eq_true, if_false, hx]
         rw [ih fuel hok' hfo' (by simp at hf; omega)]
         cases rxNum ds <;> rfl
+
+/-! ### D'. the regex-side guard on a segmented template -/
+
+theorem refsAsciiFollowed_plain : ∀ (l : Bytes) (fuel : Nat) (rest : Bytes), cDollar ∉ l → l.length ≤ fuel →
+    refsAsciiFollowed fuel (l ++ rest) = refsAsciiFollowed (fuel - l.length) rest := by
+  intro l
+  induction l with
+  | nil => intro fuel rest _ _; simp
+  | cons b l ih =>
+    intro fuel rest hm hf
+    simp only [List.mem_cons, not_or] at hm
+    cases fuel with
+    | zero => simp at hf
+    | succ fuel =>
+      have hb : (b == cDollar) = false := by
+        cases hbb : (b == cDollar) with
+        | false => rfl
+        | true => exfalso; apply hm.1; simp at hbb; exact hbb.symm
+      simp only [List.cons_append, refsAsciiFollowed, hb, Bool.false_eq_true, if_false, List.length_cons]
+      rw [ih fuel rest hm.2 (by simpa using hf)]
+      congr 1; omega
+
+/-- after a well-formed reference of a safe template the next byte is ASCII: `}` for a braced one,
+    what `followOk` allows for a bare one -/
+theorem asciiAfterName_ref (b : Bool) (ds R : Bytes) (hne : ds ≠ []) (hd : ds.all isWordByte = true)
+    (ht : tailOk b R) (ha : b = false → headAscii R) :
+    asciiAfterName (refTail b ds ++ R) = true := by
+  have hall : ∀ a ∈ ds, isWordByte a = true := fun a ha => List.all_eq_true.mp hd a ha
+  cases b with
+  | true =>
+    have hrb : isWordByte cRBrace = false := by decide
+    have hdw : (ds ++ cRBrace :: R).dropWhile isWordByte = cRBrace :: R := by
+      rw [List.dropWhile_append_of_pos hall]; simp [hrb]
+    simp only [refTail, if_true, List.cons_append, List.append_assoc, List.nil_append, asciiAfterName,
+      beq_self_eq_true, hdw]
+    decide
+  | false =>
+    cases ds with
+    | nil => exact absurd rfl hne
+    | cons d ds' =>
+      have hdd : isWordByte d = true := by simp only [List.all_cons, Bool.and_eq_true] at hd; exact hd.1
+      have hlb : (d == cLBrace) = false := by simpa using word_ne_lbrace d hdd
+      have hdw : (d :: (ds' ++ R)).dropWhile isWordByte = R.dropWhile isWordByte := by
+        have := List.dropWhile_append_of_pos (l₂ := R) hall
+        simpa using this
+      show asciiAfterName (d :: ds' ++ R) = true
+      rw [List.cons_append]
+      unfold asciiAfterName
+      simp only [hlb, Bool.false_eq_true, if_false]
+      rw [hdw]
+      have h1 := ht rfl
+      have h2 := ha rfl
+      cases R with
+      | nil => rfl
+      | cons c r =>
+        simp only [headAscii] at h1 h2
+        simp [h1.1, h2]
+
+/-- **a safe template satisfies the regex-side guard**: `followOk` (strengthened: ASCII after a bare
+    name) gives `refsAsciiFollowed` -/
+theorem refsAsciiFollowed_flat : ∀ (segs : List Seg) (fuel : Nat), (∀ s ∈ segs, segOk s = true) →
+    followOk segs = true → (flatSegs segs).length ≤ fuel →
+    refsAsciiFollowed fuel (flatSegs segs) = true := by
+  intro segs
+  induction segs with
+  | nil => intro fuel _ _ _; cases fuel <;> rfl
+  | cons s segs ih =>
+    intro fuel hok hfo hf
+    have hok' : ∀ s ∈ segs, segOk s = true := fun s hs => hok s (List.mem_cons_of_mem _ hs)
+    cases s with
+    | lit l =>
+      have hl := segOk_lit l (hok _ List.mem_cons_self)
+      simp only [flatSegs, Seg.text, List.length_append] at hf ⊢
+      rw [refsAsciiFollowed_plain l fuel _ hl.1 (by omega)]
+      exact ih _ hok' (by simpa [followOk] using hfo) (by omega)
+    | ref b ds =>
+      obtain ⟨hne, hd, _⟩ := segOk_ref b ds (hok _ List.mem_cons_self)
+      obtain ⟨ht, hfo'⟩ := followOk_cons_ref b ds segs hfo
+      have hx := rxExtract_ref b ds (flatSegs segs) hne hd ht
+      have hfa : b = false → headAscii (flatSegs segs) := by
+        intro hb; subst hb
+        exact followOk_cons_ref_ascii ds segs hfo
+      have hasc : asciiAfterName (refTail b ds ++ flatSegs segs) = true :=
+        asciiAfterName_ref b ds _ hne hd ht hfa
+      have htail : ∃ c tl, refTail b ds = c :: tl ∧ (c == cDollar) = false := by
+        cases b with
+        | true => exact ⟨cLBrace, ds ++ [cRBrace], rfl, by decide⟩
+        | false =>
+          cases ds with
+          | nil => exact absurd rfl hne
+          | cons d ds' =>
+            have hdd : isWordByte d = true := by simp only [List.all_cons, Bool.and_eq_true] at hd; exact hd.1
+            exact ⟨d, ds', rfl, by simpa using word_ne_dollar d hdd⟩
+      obtain ⟨c, tl, hc1, hc2⟩ := htail
+      simp only [flatSegs, Seg.text, refText_cons, List.cons_append, List.length_cons, List.length_append] at hf ⊢
+      cases fuel with
+      | zero => omega
+      | succ fuel =>
+        rw [hc1] at hx hasc hf ⊢
+        simp only [List.cons_append] at hx hasc hf ⊢
+        simp only [refsAsciiFollowed, beq_self_eq_true, if_true, hc2, Bool.false_eq_true, if_false, hx, hasc,
+          Bool.true_and]
+        exact ih fuel hok' hfo' (by simp at hf; omega)
 
 theorem expected_eq_specOut (n : Nat) (caps : List Bytes) (hc : caps.length ≤ n) (segs : List Seg)
     (hok : ∀ s ∈ segs, segOk s = true) : expected n caps segs = specOut caps segs := by
